@@ -321,6 +321,16 @@ def _len_offset(x, pname):
 _SOME_NEEDS = {"slice::<impl [T]>::split_first": 1, "slice::<impl [T]>::split_last": 1, "slice::<impl [T]>::first": 1, "slice::<impl [T]>::last": 1}
 
 
+def _len_offset_of_len(t, pname):
+    """k such that t = len(x) with len(pname) = len(x) + k (x the parameter or a sub-slice of it), else None."""
+    t = B.peel(t)
+    if t.op == "call" and B.cname(t) in ("slice::<impl [T]>::len", "Vec::<T, A>::len") and len(t.a[1]) == 1:
+        return _len_offset(t.a[1][0], pname)
+    if t.op == "len":
+        return _len_offset(t.a[0], pname)
+    return None
+
+
 def _literal_len_bound(atom, pol, pname):
     """Lower bound on len(pname) implied by one path literal (0 when it says nothing)."""
     if atom[0] != "atom":
@@ -331,6 +341,22 @@ def _literal_len_bound(atom, pol, pname):
             c = _len_offset(t.a[1][0], pname)
             if c is not None:
                 return c + 1
+    if atom[1] == "cmp" and len(atom) >= 5:
+        # `len(p) >= c` and its spellings (a slice pattern `[first, rest @ ..]` compiles to one)
+        op, a, b = atom[2], atom[3], atom[4]
+        if not pol:
+            op = _NEG[op]
+        if _len_offset_of_len(b, pname) is not None and _len_offset_of_len(a, pname) is None:
+            a, b = b, a
+            op = _FLIP[op]
+        off = _len_offset_of_len(a, pname)
+        c = _cval(b) if off is not None else None
+        if c is not None:
+            if op in ("Ge", "Eq"):
+                return c + off
+            if op == "Gt":
+                return c + 1 + off
+        return 0
     some = None
     if pol and atom[1] == "is_some":
         some = atom[2]
@@ -573,6 +599,22 @@ SCALAR_IMPORTERS = ("helpers::scalar_from_be_bytes", "helpers::scalar_from_le_by
 REDUCING_DECODERS = ("scalar_from_bytes_wide", "from_bytes_wide", "from_okm", "from_uniform_bytes", "reduce", "from_be_bytes_mod_order", "from_le_bytes_mod_order")
 
 
+def _flag_rejects_zero(P, ev):
+    """Every value the function returns is a CtOption whose is_some flag has the conjunct !is_zero(input)."""
+    ret = strip_sites(ev.ret)
+    alts = list(ret.a[0]) if ret.op == "phi" else [ret]
+    if not alts:
+        return False
+    for a in alts:
+        fm = G.formula(T("call", ("CtOption::<T>::is_some", ()), (a,)), P)
+        if fm == G.FALSE:
+            continue
+        lits = G.literals(fm, True)
+        if not has_literal(lits, "is_zero", ("param", "input"), False):
+            return False
+    return True
+
+
 def check_scalar_zero_guard(ctx, rule, P):
     """The byte importers of scalars reject the all-zero string: in each helper every from_repr call is dominated by
     !is_zero(input); a helper that has no from_repr of its own must hand its input to the sibling importer (which is checked)."""
@@ -583,7 +625,10 @@ def check_scalar_zero_guard(ctx, rule, P):
         ev = evaluate(fn)
         own = [b for b, s in sorted(ev.sites.items()) if s.callee[0] == "PrimeField::from_repr"]
         deleg = [(b, s) for b, s in sorted(ev.sites.items()) if s.callee[0] in SCALAR_IMPORTERS and s.callee[0] != fk]
-        if own:
+        if own and _flag_rejects_zero(P, ev):
+            # branch-free form: the option that is returned carries `!is_zero(input)` as a conjunct of its is_some flag
+            ctx.ob(rule, "%s/!is_zero(%s)" % (fk, "input"), True, "the returned CtOption is some only if !is_zero(input): the flag is a conjunction containing it (subtle's and_then / new algebra)", where=where(fn))
+        elif own:
             check_result_guard(ctx, rule, P, fk, "is_zero", ("param", "input"), exits=lambda f_, e_: own)
         elif deleg:
             for b, s in deleg:
